@@ -1,4 +1,5 @@
 import PegVerif.Proofs.PathMatches
+import PegVerif.Proofs.NonVacuity
 /-
   C02 – the returned tree holds exactly the matches on the successful path, in order.
 
@@ -73,5 +74,111 @@ theorem C02_override {env : Env} {u : Nat} {rec : PM.PRec} {r0 : Rule} {f : Fiel
     ∃ ms, rec.expr ⟨env.settings.skipWhitespace && !r0.flags.noSkipWs, [f]⟩ r0.definition s = some (.ok ms s') ∧
       shapeField [f] f (ms.filter (·.key == "_override")) = some v :=
   override_rule_value hget hname hstr h
+
+/-! ## non-vacuity (BEGIN) -/
+namespace C02_nv
+open Peg.NV Peg.PathExamples
+
+/-! instance 1: `PathExamples.exEnv` (Proofs/PathMatches.lean)
+    `X = 'x'; Y = 'y'; R = (a:X b:Y 'z' | a:X) {c:Y} [d:X 'q'] !(X 'q') {v:X | v:Y};` on `"xyyxyx"`:
+    an abandoned alternative, an abandoned optional, a lookahead, two closures, a two-type field -/
+
+def RF : List FieldDesc := ownFields exEnv (.incl "R")
+def ctxR : Ctx := ⟨false, RF⟩
+
+example : RF = [⟨"a", [("X", false)], .one⟩, ⟨"b", [("Y", false)], .optional⟩, ⟨"c", [("Y", false)], .multiple⟩,
+     ⟨"d", [("X", false)], .optional⟩, ⟨"v", [("X", false), ("Y", false)], .multiple⟩] := by decide +kernel
+
+/-- the hypotheses of `C02_tree` -/
+theorem hget : getFields exEnv.g exEnv.nf (.incl "R") = .ok RF := getFields_ok_of (by decide +kernel)
+theorem hn : (ctxR.ruleFields.map (·.name)).Nodup := by decide +kernel
+example : PureHooks exEnv.hooks ∧ NoLeftrec exEnv.g := ⟨pure_default, noLeftrec_of (by decide)⟩
+
+/-- `C02_tree` instantiated: the reference run succeeds at offset 6 and its `Parsed` is the shaping of the path
+    matches -/
+example : ∃ p s', (Spec.eval exEnv 0 8).expr ctxR (.incl "R") (St.new exInp) = some (.ok p s') ∧ s'.off = 6 ∧
+    ∃ ms, (PM.eval exEnv 0 8).expr ctxR (.incl "R") (St.new exInp) = some (.ok ms s') ∧
+      shapeParsed RF (filterRuleFields RF RF) ms = some p ∧ PathOk RF ms := by
+  obtain ⟨p, s', h, hp⟩ := sok_of (o := (Spec.eval exEnv 0 8).expr ctxR (.incl "R") (St.new exInp))
+    (fun _ s => s.off == 6) (by decide +kernel)
+  exact ⟨p, s', h, by simpa using hp, C02_tree exEnv 0 8 hn hget (SubFields.refl _) h⟩
+
+/-- the matches in question (six of them; the abandoned `a:X b:Y`, `d:X` and the `X` in the lookahead are absent) -/
+example : (match (PM.eval exEnv 0 8).expr ctxR (.incl "R") (St.new exInp) with
+    | some (.ok ms s) => ms.map (fun m => (m.key, m.typ)) == [("a", "X"), ("c", "Y"), ("c", "Y"), ("v", "X"), ("v", "Y"), ("v", "X")]
+        && s.off == 6
+    | _ => false) = true := by decide +kernel
+
+/-- `C02_rule` and `C02_parse` instantiated -/
+example : ∃ v s, (Spec.eval exEnv 0 8).rule "R" (St.new exInp) = some (.ok v s) ∧
+    (PM.eval exEnv 0 8).rule "R" (St.new exInp) = some (.ok v s) ∧
+    v.render = "R { a: X, b: None, c: [Y, Y], d: None, v: [X(X), Y(Y), X(X)] }" := by
+  obtain ⟨v, s, h, hp⟩ := sok_of (o := (Spec.eval exEnv 0 8).rule "R" (St.new exInp))
+    (fun v _ => v.render == "R { a: X, b: None, c: [Y, Y], d: None, v: [X(X), Y(Y), X(X)] }") (by decide +kernel)
+  exact ⟨v, s, h, C02_rule exEnv 0 8 h, by simpa using hp⟩
+
+example : ∃ v s g, parseAdvanced exEnv 8 "R" exInp 0 = some (.ok v s, g) ∧ s.off = 6 ∧
+    ∃ m, PM.parse exEnv 0 m "R" exInp = some (.ok v (Spec.clr s)) := by
+  obtain ⟨v, s, g, h, hp⟩ := ok_of (o := parseAdvanced exEnv 8 "R" exInp 0) (fun _ s _ => s.off == 6) (by decide +kernel)
+  exact ⟨v, s, g, h, by simpa using hp, C02_parse exEnv pure_default (noLeftrec_of (by decide)) "R" exInp 0 8 h⟩
+
+/-- `C02_lookahead_no_trace`: the lookahead `!(X 'q')` of `R` at offset 3 (`"xyx"` remains: `X` matches, `'q'` does
+    not, so the lookahead succeeds) over the real evaluator -/
+def la : Expr := .seq [.field none false "X", lx 'q']
+def s3 : St := ⟨exInp.drop 3, 3, none⟩
+example : ∃ ms s', PM.stepExpr exEnv (PM.eval exEnv 0 5) 5 ctxR (.neg la) s3 = some (.ok ms s') ∧ ms = [] ∧ s' = s3 := by
+  obtain ⟨ms, s', h, -⟩ := sok_of (o := PM.stepExpr exEnv (PM.eval exEnv 0 5) 5 ctxR (.neg la) s3)
+    (fun _ _ => true) (by decide)
+  exact ⟨ms, s', h, (C02_lookahead_no_trace exEnv (PM.eval exEnv 0 5) 5 ctxR la s3 s').1 h⟩
+
+/-- `C02_variant`: the match `v:Y` of the two-type field `v` -/
+example : ∃ f w, findField RF "v" = some f ∧ f.types.length > 1 ∧ wrapMatch RF ⟨"v", "Y", Y⟩ = some w ∧
+    ∃ x, w = .variant "Y" x ∧ (x = Y ∨ x = .boxed Y) := by
+  have hf : findField RF "v" = some ⟨"v", [("X", false), ("Y", false)], .multiple⟩ := by decide +kernel
+  have hw : wrapMatch RF ⟨"v", "Y", Y⟩ = some (.variant "Y" Y) := by
+    unfold wrapMatch; rw [hf]; rfl
+  exact ⟨_, _, hf, by decide, hw, C02_variant (m := ⟨"v", "Y", Y⟩) hf (by decide) hw⟩
+
+/-! instance 2: `NV` grammar with `@position` on `Num`, plus an override rule `Item = @:Num | @:Word` -/
+
+def envP : Env := envWith [] [.position] default
+
+/-- `C02_string`: `@string @position Num` on `"12+"` yields the slice `"12"` and the range 0..2 -/
+example : ∃ v s', Spec.ruleBody envP 0 (Spec.eval envP 0 10) (ruleNum [.position]) (St.new [49, 50, 43]) = some (.ok v s') ∧
+    s'.off = 2 ∧ v = Val.node "Num" [("string", .str [49, 50])] (some (0, 2)) := by
+  obtain ⟨v, s', h, hp⟩ := sok_of (o := Spec.ruleBody envP 0 (Spec.eval envP 0 10) (ruleNum [.position]) (St.new [49, 50, 43]))
+    (fun _ s => s.off == 2 && s.rest == [43]) (by decide)
+  have hv := C02_string (r0 := ruleNum [.position]) rfl h
+  simp only [Bool.and_eq_true, beq_iff_eq] at hp
+  refine ⟨v, s', h, hp.1, ?_⟩
+  rw [hv]
+  simp [ruleNum, Rule.flags, RuleFlags.add, St.sliceUntil, St.new, hp.1]
+
+/-- `C02_char`: the builtin `char` on `"éx"` -/
+example : ∃ v s', Spec.stepRule envP 0 (Spec.eval envP 0 1) "char" (St.new (enc ['é', 'x'])) = some (.ok v s') ∧
+    ∃ c, decodeHead (enc ['é', 'x']) = some c ∧ v = .chr c ∧ s'.off = 0 + c.utf8Size := by
+  obtain ⟨v, s', h, -⟩ := sok_of (o := Spec.stepRule envP 0 (Spec.eval envP 0 1) "char" (St.new (enc ['é', 'x'])))
+    (fun _ s => s.off == 2) (by decide)
+  exact ⟨v, s', h, C02_char (by decide) h⟩
+example : decodeHead (enc ['é', 'x']) = some 'é' := by decide
+
+/-- `C02_override`: `Item = @:Num | @:Word` (a two-type override field) on `"ab"` -/
+def ruleItem : Rule := ⟨[], "Item", .choice [.seq [.field (some .override) false "Num"],
+                                            .seq [.field (some .override) false "Word"]]⟩
+def envO : Env := { g := ⟨[.rule ruleItem, .rule (ruleNum []), .rule ruleWord]⟩, settings := {}, hooks := default, nf := 10 }
+def fO : FieldDesc := ⟨"_override", [("Num", false), ("Word", false)], .one⟩
+theorem hgetO : getFields envO.g envO.nf ruleItem.definition = .ok [fO] := by
+  have := getFields_ok_of (env := envO) (e := ruleItem.definition) (by decide +kernel)
+  rw [this]; congr 1; decide +kernel
+example : ∃ v s', PM.ruleBody envO 0 (PM.eval envO 0 14) ruleItem (St.new [97, 98]) = some (.ok v s') ∧
+    v.render = "Word(S\"6162\")" ∧
+    ∃ ms, (PM.eval envO 0 14).expr ⟨true, [fO]⟩ ruleItem.definition (St.new [97, 98]) = some (.ok ms s') ∧
+      shapeField [fO] fO (ms.filter (·.key == "_override")) = some v := by
+  obtain ⟨v, s', h, hp⟩ := sok_of (o := PM.ruleBody envO 0 (PM.eval envO 0 14) ruleItem (St.new [97, 98]))
+    (fun v _ => v.render == "Word(S\"6162\")") (by decide +kernel)
+  exact ⟨v, s', h, by simpa using hp, C02_override hgetO rfl rfl h⟩
+
+end C02_nv
+/-! ## non-vacuity (END) -/
 
 end Peg.Props
